@@ -112,8 +112,10 @@ ElemFails(e) ==
 \* an earlier result scribbled over by its caller must not show through a later call
 AliasFails(e) ==
   IF e.o1 = "panic" \/ e.o2 = "panic" THEN "an operator crashed; "
-  ELSE IF ~e.scribbled THEN ""
-  ELSE F(e.o2 = e.o1 /\ e.r2.t = e.r1.t /\ e.r2.s = e.r1.s, "an operator hands out a shared result: what a caller does to one result changes later results")
+  ELSE F(e.aa.t = e.a.t /\ e.aa.s = e.a.s /\ e.ba.t = e.b.t /\ e.ba.s = e.b.s, "an operator changed one of its operands")
+    \o (IF e.scribbled
+        THEN F(e.o2 = e.o1 /\ e.r2.t = e.r1.t /\ e.r2.s = e.r1.s, "an operator hands out a shared result: what a caller does to one result changes later results")
+        ELSE F(e.o2 = e.o1 /\ (e.o1 = "value" => e.r2.t = e.r1.t /\ e.r2.s = e.r1.s), "the same call on the same operands gives another result the second time"))
 PowDoubleFails(e) ==
   IF e.o1 = "skip" THEN ""
   ELSE IF e.o1 = "panic" \/ e.o2 = "panic" THEN "an operator crashed; "
